@@ -514,6 +514,15 @@ def _run(ctx):
                     res.violation("block-type-refused-at-root", {"category": "root-block+keyword", "text": text}, repr(out[1])[:200], None)
         for b in ("METADATA", "VALIDATION", "CONNECTIONOPTIONS", "SYMBOLSET"):
             J.judge(f"{b} END", "root-block-kv")
+        # every way an INCLUDE line can be malformed or merely odd (missing names, comments glued to the keyword or the name,
+        # quotes left open, several names): a parse error or an I/O error for a file that is not there, nothing else
+        inc_forms = ["INCLUDE", "INCLUDE ", "INCLUDE#c", "INCLUDE#c d", "INCLUDE# see layers.map", "include#x y", "INCLUDE # c", "INCLUDE #c d",
+                     "INCLUDE\t#c", "INCLUDE nofile.map#c", "INCLUDE nofile.map #c d", 'INCLUDE "nofile.map"#c', "INCLUDE 'nofile.map' 'b.map'",
+                     'INCLUDE "nofile.map', "INCLUDE 'nofile.map", "INCLUDE \"\"", "INCLUDE ''", "INCLUDE #", "INCLUDE \"#\"", "INCLUDEX a", "INCLUDE=a",
+                     "  include   nofile.map   ", "INCLUDE nofile.map extra words", "INCLUDE \"a b.map\" # c", "INCLUDE a#b#c d e", "INCLUDE#\"q\" r"]
+        for form in inc_forms:
+            for text in (f"MAP\n{form}\nEND", form, f"MAP\n  NAME \"x\"\n  {form}\r\nEND\n", f"LAYER METADATA\n{form}\nEND END"):
+                J.judge(text, "include-line-forms")
         # empty inner blocks of every kind, as the first / only / later child of every root that can hold them (accepted or refused
         # with a parse error - never something else, never a malformed result)
         inner = ["PATTERN", "POINTS", "PROJECTION", "METADATA", "VALIDATION", "VALUES", "CONNECTIONOPTIONS"] + list(BLOCKS)
